@@ -6,6 +6,8 @@ GEN_MODULES = [
      {"hll/estimator.rs": ["get_rel_err", "get_raw_estimate", "get_composite_estimate"]},
      {"hll/estimator.rs": ["HIP_LB", "HIP_UB", "NON_HIP_LB", "NON_HIP_UB"]},
      {"hll/estimator.rs": ["get_rel_err", "get_raw_estimate", "get_composite_estimate"]}),
+    ("GenBoundsComposite", ["hll/composite_interpolation.rs", "hll/harmonic_numbers.rs"],
+     ["NUM_X_VALUES", "Y_STRIDES", "ARRAYS", "EXACT_HARMONIC", "NUM_EXACT", "EULER_MASCHERONI"]),
     ("GenBoundsCpc", ["cpc/estimator.rs"],
      ["ICON_ERROR_CONSTANT", "HIP_ERROR_CONSTANT", "ICON_LOW_SIDE_DATA", "ICON_HIGH_SIDE_DATA", "HIP_LOW_SIDE_DATA",
       "HIP_HIGH_SIDE_DATA", "ICON_POLYNOMIAL_COEFFICIENTS", "ICON_POLYNOMIAL_NUM_COEFFICIENTS", "ICON_MIN_LOG_K",
@@ -33,7 +35,7 @@ FAMILY = "bounds"
 CORR = "Bounds"
 FAMNUM = 9
 ORACLES = {"prop_ok": 0, "tie_ok": 1}
-OPNAMES = {1: "hll_fn", 2: "cpc_fn", 3: "theta_fn", 4: "hll_sketch", 5: "cpc_sketch", 6: "theta_sketch"}
+OPNAMES = {1: "hll_fn", 2: "cpc_fn", 3: "theta_fn", 4: "hll_sketch", 5: "cpc_sketch", 6: "theta_sketch", 7: "hll_parts"}
 
 
 def fbits(x):
@@ -71,6 +73,50 @@ def hll_fn(rng):
         cur_min = 0 if zeros else rng.choice([0, 1, 2])
         return (1, [lgk, 1, fbits(rand_nonneg(rng)), fbits(kxq0), fbits(kxq1), cur_min, zeros if cur_min == 0 else rng.randint(0, k)])
     return (1, [lgk, 0, fbits(rand_nonneg(rng)), fbits(float(k)), fbits(0.0), 0, k])
+
+
+_XCACHE = {}
+
+
+def composite_x(lgk):
+    """first and last entry of the composite x-array of lg_k (read from the generated Coq table)"""
+    if not _XCACHE:
+        import os, re
+        txt = open(os.path.join(os.path.dirname(os.path.abspath(__file__)), "..", "..", "coq", "theories", "Gen", "GenBoundsComposite.v")).read()
+        body = txt[txt.index("Definition ARRAYS"):]
+        rows = re.findall(r"\[([0-9; \n]+)\]", body)
+        for i, r in enumerate(rows[:18]):
+            v = [struct.unpack("<d", struct.pack("<Q", int(t)))[0] for t in r.replace("\n", " ").split(";")]
+            _XCACHE[4 + i] = v
+    return _XCACHE[lgk]
+
+
+def hll_parts(rng):
+    """register summaries that drive the raw estimate into every branch of get_composite_estimate"""
+    lgk = rng.randint(4, 21)
+    k = 1 << lgk
+    xs = composite_x(lgk)
+    cf = {4: 0.673, 5: 0.697, 6: 0.709}.get(lgk, 0.7213 / (1.0 + 1.079 / k))
+    r = rng.random()
+    if r < 0.08:
+        target = xs[0] * rng.choice([0.5, 0.99, 0.999999])
+    elif r < 0.16:
+        target = xs[-1] * rng.choice([1.000001, 1.5, 10.0])
+    elif r < 0.24:
+        target = rng.choice(xs)                                  # exactly on a node (incl. first and last)
+    elif r < 0.5:
+        i = rng.randrange(len(xs) - 1)
+        target = xs[i] + (xs[i + 1] - xs[i]) * rng.random()      # anywhere in the table
+    else:
+        i = rng.randrange(0, 12)                                 # low end: linear counting / crossover region
+        target = xs[i] + (xs[i + 1] - xs[i]) * rng.random()
+    kxq = cf * k * k / target
+    kxq1 = rng.choice([0.0, 0.0, 2.0 ** -40])
+    zeros = max(0, min(k, int(round(k * math.exp(-min(50.0, target / k))))))
+    if rng.random() < 0.2:
+        zeros = rng.choice([0, 1, k - 1, k // 2, rng.randint(0, k)])
+    cur_min = 0 if zeros or rng.random() < 0.5 else rng.choice([1, 2])
+    return (7, [lgk, fbits(kxq - kxq1), fbits(kxq1), cur_min, zeros])
 
 
 def cpc_fn(rng):
@@ -130,8 +176,10 @@ def gen(rng, tier, n=None, focus=None):
     for i in range(n):
         ops = []
         seed = rng.randrange(1 << 31)
-        r = i % 6
-        if r == 0:
+        r = i % 7
+        if r == 6:
+            ops = [hll_parts(rng) for _ in range(60)]
+        elif r == 0:
             ops = [hll_fn(rng) for _ in range(40)]
         elif r == 1:
             ops = [cpc_fn(rng) for _ in range(40)]
